@@ -43,7 +43,7 @@ def load_decoders(ctx):
 
 
 MIN_HITS = {
-    'quick': {"request": 40000, "prefix": 8000, "extreme_len": 8000, "short": 8000, "decoders_seen": 44},
+    'quick': {"request": 1257021, "prefix": 239782, "extreme_len": 837539, "short": 57834, "decoders_seen": 704},
     'thorough': {"request": 6957792, "prefix": 1138233, "extreme_len": 4452364, "short": 488332, "decoders_seen": 1689},
 }
 
@@ -353,6 +353,41 @@ def assess(ctx, case, n, r, build):
         else:
             ctx.viol("decoder %s kills the process (%s)%s" % (which, d.get("signal") or d.get("code"), tag), {"input": case.get("hex", case.get("text"))[:300], "cls": case["cls"], "death": {q: d[q] for q in d if q != "stderr"}})
 
+def fuzz_stage(modname, tier, seed, target, seconds, to_cases, seeds=(), max_len=1024):
+    """thorough only: run the libFuzzer input finder, convert artifacts + corpus into cases and re-judge them with this module's oracle"""
+    import importlib
+    from .. import core, fuzz
+
+    mod = importlib.import_module(modname)
+    ctx = core.Ctx(mod.ID, tier, seed, 0, 1)
+    try:
+        res = fuzz.run(target, seconds, seeds=seeds, max_len=max_len)
+    except Exception as e:  # finder unavailable: reported, never a verdict
+        ctx.note("fuzz stage skipped: %s" % str(e)[:200])
+        return [ctx.result()]
+    n = 0
+    try:
+        for kind, data in res["artifacts"]:
+            for case in to_cases(data, "fuzz_artifact_" + kind):
+                ctx.begin(case)
+                mod.judge(ctx, case)
+                ctx.end()
+                n += 1
+        for data in res["corpus"]:
+            for case in to_cases(data, "fuzz_corpus"):
+                ctx.begin(case)
+                mod.judge(ctx, case)
+                ctx.end()
+                n += 1
+    finally:
+        ctx.close()
+    ctx.exhaustive.append("libFuzzer finder '%s': %d s, %d artifacts, %d corpus files (%d re-judged cases); %s" % (target, seconds, len(res["artifacts"]), res["n_corpus_files"], n, res["stats"]))
+    r = ctx.result()
+    r["hits"] = {"fuzz:%s" % k: v for k, v in r["hits"].items()}
+    r["samples"] = []
+    return [r]
+
+
 MIRI_DECODERS = ["tx_from_bytes", "tx_from_hex", "tx_from_compact_bytes", "tx_from_json_string", "txin_from_hex", "txin_from_compact_bytes", "txin_serde_json", "txout_from_hex", "txout_serde_json", "script_from_bytes", "script_from_hex", "script_from_asm_string", "script_serde_json", "template_from_asm_string", "addr_from_string", "addr_from_pubkey_hash", "sig_from_der", "sighashsig_from_bytes", "hash_serde_json", "kdf_serde_json", "txin_from_outpoint_bytes"]
 
 
@@ -411,4 +446,24 @@ def extra_stages(tier, seed, res):
     mr["hits"] = {"miri:%s" % k: v for k, v in mr["hits"].items()}
     mr["samples"] = []
     out.append(mr)
+    out += fuzz_stage(__name__, tier, seed, "decode", 150, fuzz_to_cases, seeds=[bytes([i]) + b"\x01\x00\x00\x00\x00\x00\x00\x00\x00\x00" for i in range(16)], max_len=2048)
     return out
+
+
+FUZZ_SEL = {
+    0: ["tx_from_bytes"], 1: ["script_from_bytes"], 2: ["tx_from_compact_bytes"], 3: ["txin_from_compact_bytes"], 4: ["tx_from_json_string"], 5: ["script_from_asm_string"],
+    6: ["template_from_asm_string"], 7: ["sig_from_der", "sighashsig_from_bytes", "sig_from_compact"], 8: ["ecies_from_bytes_pub", "ecies_from_bytes_nopub"],
+    9: ["privkey_from_wif", "addr_from_string"], 10: ["xprv_from_string", "xpub_from_string"], 11: ["pubkey_from_bytes"], 12: ["txin_serde_json", "script_serde_json"],
+    13: ["txin_from_hex", "txout_from_hex"], 14: ["xprv_path"], 15: ["tx_from_hex", "script_from_hex"],
+}
+
+
+def fuzz_to_cases(data, cls):
+    if not data:
+        return
+    kinds = dict(DECODERS or [])
+    for which in FUZZ_SEL[data[0] % 16]:
+        if kinds.get(which, "bytes") == "bytes" and not which.endswith(("_hex", "_string", "_json", "_wif", "_path")):
+            yield {"k": "dec", "which": which, "hex": data[1:].hex(), "cls": cls}
+        else:
+            yield {"k": "dec", "which": which, "text": data[1:].decode("utf8", "replace"), "cls": cls}
